@@ -4,9 +4,9 @@ import BadgerProofs.Props.C17
 
 * `C09_manifest_trunc`: last frame cut at any byte, **rest missing**: `Open`
   (`helpOpenOrCreateManifestFile`) succeeds, recovers exactly the change sets before the
-  damage and truncates the file at the end of the last complete frame — under the side
-  condition `hfit` of finding F16 (see `C17.lean`); without it the statement is false
-  (`C09_manifest_trunc_counterexample`).
+  damage and truncates the file at the end of the last complete frame, for **every** cut
+  (`C09_manifest_trunc_all`; before the fix of finding F16 a cut after the frame header failed
+  when the payload length exceeded the torn file's size: `C09_manifest_F16_regression_witness`).
 * zero-filled rest: `C09_manifest_zero_after_complete` (zeros after a complete frame are read
   as empty change sets: fine), `C09_manifest_zeroStatement` is **false** for the code as it
   is (finding F5): `C09_manifest_zero_counterexample`.
@@ -22,37 +22,42 @@ theorem C09_manifest_trunc (cd : Codec) (hv : cd.Valid) (ext : Nat) (hext : ext 
     (hall : applyAll Manifest.empty pre = some m) (hrange : ∀ s, s ∈ pre → ChangeSet.InRange s)
     (hc1 : (manifestFileOf cd ext pre).length ≤ c)
     (hc2 : c < (manifestFileOf cd ext (pre ++ [last])).length)
-    (hsize : c < 2 ^ 32)
-    (hfit : (manifestFileOf cd ext pre).length + 8 ≤ c → (cd.enc last).length ≤ c) :
+    (hsize : c < 2 ^ 32) (hl32 : (cd.enc last).length < 2 ^ 32) :
     MFile.openExisting cd ((manifestFileOf cd ext (pre ++ [last])).take c) ext threshold =
       .ok ({ file := manifestFileOf cd ext pre, manifest := m.clone cd, threshold, ext,
              pos := (manifestFileOf cd ext pre).length }, m) := by
   unfold MFile.openExisting
-  rw [C17_trunc cd hv ext hext pre last c m hall hrange hc1 hc2 hsize hfit]
+  rw [C17_trunc cd hv ext hext pre last c m hall hrange hc1 hc2 hsize hl32]
   simp only
   have hfile : manifestFileOf cd ext (pre ++ [last]) =
       manifestFileOf cd ext pre ++ frame cd (cd.enc last) := by
     simp [manifestFileOf, framesOf_append, framesOf_cons]
   rw [hfile, List.take_take, Nat.min_eq_left hc1, List.take_left' rfl]
 
-/-- The unconditional statement asked for by C09 ("cut at any byte, rest missing"). -/
+/-- The statement asked for by C09 ("cut at any byte, rest missing"): Open succeeds and recovers
+    the sets before the damage (MANIFEST smaller than 4 GiB: `uint32` length field). -/
 def C09_manifest_truncStatement (cd : Codec) : Prop :=
   ∀ (ext : Nat) (threshold : Int) (pre : List ChangeSet) (last : ChangeSet) (c : Nat) (m : Manifest),
     ext < 2 ^ 16 → applyAll Manifest.empty pre = some m →
     (∀ s, s ∈ pre → ChangeSet.InRange s) → ChangeSet.InRange last →
+    (manifestFileOf cd ext (pre ++ [last])).length < 2 ^ 32 →
     (manifestFileOf cd ext pre).length ≤ c → c < (manifestFileOf cd ext (pre ++ [last])).length →
     ∃ mf, MFile.openExisting cd ((manifestFileOf cd ext (pre ++ [last])).take c) ext threshold = .ok (mf, m)
 
-/-- **Finding F16**: it is false for the code as it is (same witness as in `C17.lean`: fresh
-    MANIFEST, one set of three creates, cut one byte into its payload). -/
-theorem C09_manifest_trunc_counterexample : ¬ C09_manifest_truncStatement pbCodec := by
-  intro h
-  obtain ⟨mf, h1⟩ := h 0 0 [[]] c17Witness 25 Manifest.empty (by decide) (by decide)
-    (by intro s hs; simp only [List.mem_singleton] at hs; subst hs; decide) (by decide)
-    (by decide) (by decide)
-  unfold MFile.openExisting at h1
-  rw [C17_trunc_counterexample_replay] at h1
-  cases h1
+theorem C09_manifest_trunc_all (cd : Codec) (hv : cd.Valid) : C09_manifest_truncStatement cd := by
+  intro ext threshold pre last c m hext hall hrange _ hsz hc1 hc2
+  have hl : (cd.enc last).length < 2 ^ 32 := by
+    have := enc_le_framesOf cd (pre ++ [last]) last (by simp)
+    simp only [manifestFileOf, List.length_append] at hsz
+    omega
+  exact ⟨_, C09_manifest_trunc cd hv ext hext threshold pre last c m hall hrange hc1 hc2 (by omega) hl⟩
+
+/-- regression witness for finding F16 (fixed), at the level of Open: the image the old length
+    check rejected (see `C17_F16_regression_witness`) now opens, truncated to its 16 intact bytes. -/
+theorem C09_manifest_F16_regression_witness :
+    oldLengthCheckRejects ((manifestFileOf pbCodec 0 ([[]] ++ [c17Witness])).take 25) 16 = true ∧
+    (MFile.openExisting pbCodec ((manifestFileOf pbCodec 0 ([[]] ++ [c17Witness])).take 25) 0 0).toOption.map
+      (fun r => (r.1.file.length, r.1.pos, r.2)) = some (16, 16, Manifest.empty) := by decide
 
 /-! ## zero-filled tails -/
 
@@ -64,17 +69,17 @@ theorem replicate_zero_frame (n : Nat) :
 /-- Zeros at a frame boundary: every 8 zero bytes are an empty change set (`len = 0`,
     `crc32c("") = 0`), the remaining `< 8` bytes are a short read. -/
 theorem replayRest_zeros (cd : Codec) (hcrc0 : cd.crc [] = 0) (hdec0 : cd.dec [] = some [])
-    (fsize n off : Nat) (b : Manifest) :
-    replayRest cd fsize (List.replicate n 0) off b = .ok (b, off + 8 * (n / 8)) := by
+    (n off : Nat) (b : Manifest) :
+    replayRest cd (List.replicate n 0) off b = .ok (b, off + 8 * (n / 8)) := by
   induction n using Nat.strongRecOn generalizing off with
   | _ n ih =>
     by_cases h8 : n < 8
-    · rw [replayRest_short _ _ _ _ _ (by simpa using h8)]
+    · rw [replayRest_short _ _ _ _ (by simpa using h8)]
       have : n / 8 = 0 := Nat.div_eq_of_lt h8
       simp [this]
     · obtain ⟨k, rfl⟩ : ∃ k, n = 8 + k := ⟨n - 8, by omega⟩
       rw [replicate_zero_frame k,
-        replayRest_rawFrame cd fsize 0 0 [] _ off b rfl (by decide) (by decide) (Nat.zero_le _)]
+        replayRest_rawFrame cd 0 0 [] _ off b rfl (by decide) (by decide)]
       rw [if_neg (by simp [hcrc0]), hdec0]
       simp only [applyChangeSet]
       rw [ih k (by omega)]
